@@ -25,12 +25,13 @@ META = {
 }
 
 
-def h_protocol(ctx: Any, code: str, n: int, depth: int, stack: int = 200) -> None:
+def h_protocol(ctx: Any, code: str, n: int, depth: int, stack: int = 200, split_flop: bool = False) -> None:
     from pokerkit.notation import HandHistory
     C.native_hands()
     C.set_deck_order('identity')
     warnings.simplefilter('ignore')
-    autos = tuple(a for a in Automation if a != Automation.HOLE_CARDS_SHOWING_OR_MUCKING)
+    autos = tuple(a for a in Automation if a != Automation.HOLE_CARDS_SHOWING_OR_MUCKING
+                  and not (split_flop and a == Automation.BOARD_DEALING))
     cfg: dict = dict(n=n, stacks=(stack,) * n, antes=0, blinds=(1, 2), automations=autos, mode=Mode.CASH_GAME)
     if code == 'FT':
         cfg.update(small_bet=2, big_bet=4)
@@ -49,15 +50,22 @@ def h_protocol(ctx: Any, code: str, n: int, depth: int, stack: int = 200) -> Non
 
     def sync_boards() -> None:
         nonlocal actions, boards_seen
-        nb = len([o for o in st.operations if type(o).__name__ == 'BoardDealing'])
+        # one separator per STREET, however many dealing calls the street took
+        nb = len({st_i for st_i in street_of_board_op})
         while boards_seen < nb:
             actions += '/'
             boards_seen += 1
 
+    street_of_board_op: list = []
     while st.status:
         guard += 1
         ctx.check(guard < 200, 'no-termination')
         sync_boards()
+        if split_flop and st.can_deal_board():
+            # the board of a street put out in several calls (pokerkit permits it)
+            street_of_board_op.append(st.street_index)
+            st.deal_board(1 if ctx.flag(f'one{guard}') else None)
+            continue
         if at_player_decision(st):
             i = st.actor_index
             k = ctx.choice(f'k{guard}', 3) if decisions < depth else 1
@@ -93,12 +101,20 @@ def h_protocol(ctx: Any, code: str, n: int, depth: int, stack: int = 200) -> Non
                     shown[idx] = ''.join(repr(c) for c in op.hole_cards)
         else:
             ctx.fail('stuck')
+    if not split_flop:
+        street_of_board_op = list(range(len([o for o in st.operations if type(o).__name__ == 'BoardDealing'])))
     sync_boards()
     dealt = {}
     for op in st.operations:
         if type(op).__name__ == 'HoleDealing':
             dealt[op.player_index] = dealt.get(op.player_index, '') + ''.join(repr(c) for c in op.cards)
-    board = ''.join('/' + ''.join(repr(c) for c in op.cards) for op in st.operations if type(op).__name__ == 'BoardDealing')
+    if split_flop:
+        per_street: dict = {}
+        for si, op in zip(street_of_board_op, [o for o in st.operations if type(o).__name__ == 'BoardDealing']):
+            per_street[si] = per_street.get(si, '') + ''.join(repr(c) for c in op.cards)
+        board = ''.join('/' + per_street[k] for k in sorted(per_street))
+    else:
+        board = ''.join('/' + ''.join(repr(c) for c in op.cards) for op in st.operations if type(op).__name__ == 'BoardDealing')
     hh = HandHistory.from_game_state(game, st, hand=7)
     # ---- Pluribus line
     if code == 'NT':
@@ -164,6 +180,8 @@ def jobs(tier: str, seed: int) -> list[dict]:
             out.append(dict(name=f'{code}/n{n}/d{depth}', fn='h_protocol', traced=False,
                             params=dict(code=code, n=n, depth=depth), budget_s=B,
                             must_cover=['acpc'] + (['pluribus'] if code == 'NT' else [])))
+    out.append(dict(name='NT/n2/d2/flop-card-by-card', fn='h_protocol', traced=False,
+                    params=dict(code='NT', n=2, depth=2, split_flop=True), budget_s=B, must_cover=['acpc', 'pluribus']))
     out.append(dict(name='NT/n2/d5/short', fn='h_protocol', traced=False,
                     params=dict(code='NT', n=2, depth=5, stack=20), budget_s=B, must_cover=['acpc', 'pluribus']))
     if tier == 'thorough':
